@@ -13,5 +13,6 @@ CONSTANTS
   Chars = {97, 49, 45, 46, 112, 116, 34, 92, 40, 41, 91, 93, 61, 44, 35, 10}
   IntParts = {}
   Sample = 1
+  HiStep = 1
 INVARIANTS InvLexTotal InvRelex InvReadRender InvCommentsAreBlank InvFormatText
 CHECK_DEADLOCK FALSE
